@@ -12,7 +12,7 @@
 // loop would otherwise create one dynamic object per unwinding and every later access would split over all of them);
 // at most one such vector may be alive at a time (asserted).
 #define VERIF_VEC_GROW_MODEL(T, CAP)                                                                        \
-  static T verif_pool_##T[CAP]; static bool verif_pool_used_##T = false;                                    \
+  T verif_pool_##T[CAP]; bool verif_pool_used_##T = false;                                                  \
   template <> template <>                                                                                   \
   inline void std::vector<T>::_M_realloc_insert<const T &>(iterator pos, const T &x) {                      \
     verif_assert(pos.base() == this->_M_impl._M_finish, "vector model: insertion point is end()");        \
